@@ -95,6 +95,39 @@ def run_batch(model, src, frames, batch, k, refine):
     return out
 
 
+def run_centroid_only(src, frames, stub_frames, batch, bs=None):
+    """The centroid-only predictor (centroid model + keypoints taken from the labels: TopDownPredictor with confmap_config None,
+    FindInstancePeaksGroundTruth) on a Labels object holding exactly the frames of `batch`, in that order.  The stub network
+    sees `stub_frames` - the labelled animals plus, in one frame, a spurious extra centroid (an over-detection).  Raw records
+    (make_labels is the known finding X03 for this predictor).  `batch` always lists ALL frames of the source (in some order) and
+    `bs` is the batch size: the reader pads every frame to the largest number of animals in the whole label set, so a label
+    set holding only some frames would change the number of slots - an artefact of the harness, not a batch effect.
+    Returns {frame id: [[(points, score)]]}."""
+    import sleap_io as sio
+    from harness import inferplane as ip
+    from harness.idealnet import IdealNet
+    from sleap_nn.inference.predictors import TopDownPredictor
+
+    H, W = max(fr["hw"][0] for fr in frames), max(fr["hw"][1] for fr in frames)
+    cc = ip.conf_centroid(1.0, 8, 2, H, W, 0)
+    stub = IdealNet("centroid", stub_frames, 2, 3, anchor=0)
+    skel = sio.Skeleton(nodes=["n%d" % i for i in range(3)])
+    pred = TopDownPredictor(centroid_config=cc, confmap_config=None, centroid_model=stub, confmap_model=None, centroid_backbone_type="unet",
+                            skeletons=[skel], peak_threshold=0.2, integral_refinement=None, integral_patch_size=5, batch_size=(bs or len(batch)),
+                            max_instances=None, preprocess_config=None)
+    pred._initialize_inference_model()
+    sub = sio.Labels(videos=src.videos, skeletons=src.skeletons, labeled_frames=[src[i] for i in batch])
+    ident = {(src.videos.index(src[i].video), int(src[i].frame_idx)): i for i in range(len(src))}
+    out = {}
+    for rec in ip.run_predictor(pred, "LabelsReader", sub, (bs or len(batch)), make_labels=False):
+        peaks = np.asarray(rec["pred_instance_peaks"], dtype=np.float64)
+        for j in range(peaks.shape[0]):
+            fid = ident.get((int(rec["video_idx"][j]), int(rec["frame_idx"][j])), -1)
+            insts = [(peaks[j, a], 1.0) for a in range(peaks.shape[1]) if np.any(np.isfinite(peaks[j, a]))]
+            out.setdefault(fid, []).append(insts)
+    return out
+
+
 def run_range(model, src, frames, s, e, bs, k, refine):
     """Real predictor with the VideoReader provider on frames [s, e) of the (single) video, batch size bs.
     Returns {frame_idx: [instances]} keyed by the identity the CODE reports."""
@@ -220,6 +253,42 @@ def run(tier, seed, only=None):
                         for fid, lst in o.items():
                             for insts in lst:
                                 case["recs"].append(dict(fid=fid, insts=projT(insts)))
+                    except Exception as e:
+                        case["raised"] = "%s: %s" % (type(e).__name__, str(e)[:200])
+                cases.append(case)
+        # ---- top-down, no user limit: the centroid-only predictor (keypoints from the labels), with one over-detected frame ------
+        if model == "topdown" and k == 0 and refine is None and not only:
+            framesG = scene(random.Random(seed * 43 + ci), False)
+            srcG = ip.make_source(framesG, 3, EDGES)
+            # the stub sees a spurious animal in frame 3 - the frame with the most animals, so that it has MORE centroids than the
+            # label set has slots - and one in frame 2 (false-positive centroid peaks away from the labelled ones)
+            stubG = [dict(fr, animals=list(fr["animals"])) for fr in framesG]
+            stubG[3]["animals"].append(np.array([[60.0, 50.0], [67.0, 51.0], [69.0, 56.0]]))
+            stubG[2]["animals"].append(np.array([[70.0, 50.0], [77.0, 51.0], [79.0, 56.0]]))
+            clG = Classes()
+
+            def projG(insts):
+                return [dict(cls=clG.of(p), score=int(round(s_ * 1e6))) for p, s_ in insts]
+
+            singleG, errG = [], ""
+            try:
+                o0 = run_centroid_only(srcG, framesG, stubG, [0, 1, 2, 3], bs=1)       # every frame alone in its batch
+                for f in range(4):
+                    singleG.append(projG(sum(o0.get(f, []), [])))
+            except Exception as e:
+                errG = "singleton run: %s: %s" % (type(e).__name__, str(e)[:200])
+            for b_, bs_ in (([0, 1, 2, 3], 2), ([3, 2, 1, 0], 2), ([2, 3, 0, 1], 3), ([1, 2, 3, 0], 4), ([2, 1, 3, 0], 2)):
+                case = dict(id=len(cases), model="topdown", k=0, refine="none", batch=b_, bs=bs_,
+                            # instances per frame as the stage reports them alone (the over-detected frame returns its spurious centroid
+                            # matched to the nearest labelled animal: one more instance than animals - by design of the matching)
+                            animals=([len(x) for x in singleG] if len(singleG) == 4 else [len(fr["animals"]) for fr in framesG]), single=singleG,
+                            singlek=singleG, recs=[], raised=errG, combo=["centroid-only", 0, None], seed=seed, family="centroid_only_with_over_detection")
+                if not errG:
+                    try:
+                        o = run_centroid_only(srcG, framesG, stubG, b_, bs=bs_)
+                        for fid, lst in o.items():
+                            for insts in lst:
+                                case["recs"].append(dict(fid=fid, insts=projG(insts)))
                     except Exception as e:
                         case["raised"] = "%s: %s" % (type(e).__name__, str(e)[:200])
                 cases.append(case)
